@@ -114,7 +114,11 @@ def fn_two(x):
     return (x + 1, x * 2)
 
 
-def make_python_functions(log=None, fault=None):
+def fn_zero():
+    return 3
+
+
+def make_python_functions(log=None, fault=None, sites=None):
     """function_map for the Python back ends.  log: list receiving (name, args);
     fault: callable(name) raising when a fault is due."""
     import numpy as np
@@ -131,8 +135,11 @@ def make_python_functions(log=None, fault=None):
     def note(x):
         return None
 
-    return {"<func>f": wrap("<func>f", fn_f), "<func>g": wrap("<func>g", fn_g),
-            "<func>two": wrap("<func>two", fn_two), "<func>note": wrap("<func>note", note)}
+    base = {"<func>f": fn_f, "<func>g": fn_g, "<func>two": fn_two, "<func>note": note, "<func>zero": fn_zero}
+    out = {n: wrap(n, f) for n, f in base.items()}
+    for site in sites or ():
+        out[site] = wrap(site, base[base_function(site)])
+    return out
 
 
 def _fsum(xs):
@@ -142,8 +149,27 @@ def _fsum(xs):
     return r
 
 
+def base_function(name):
+    """'<func>f__3' (call site 3 of <func>f) -> '<func>f'."""
+    return name.split("__")[0] if name.startswith("<func>") else name
+
+
 def ref_call(log):
     def call(name, args, kwargs):
+        site = name
+        name = base_function(name)
+        if site != name:
+            log.append((site,))
+            if name == "<func>f":
+                return fn_f(*args, **kwargs)
+            if name == "<func>g":
+                return fn_g(*args, **kwargs)
+            if name == "<func>two":
+                return fn_two(*args, **kwargs)
+            if name == "<func>note":
+                return None
+            if name == "<func>zero":
+                return Fraction(3)
         if name == "<func>f":
             log.append((name,))
             return fn_f(*args, **kwargs)
@@ -156,6 +182,9 @@ def ref_call(log):
         if name == "<func>note":
             log.append((name,))
             return None
+        if name == "<func>zero":
+            log.append((name,))
+            return Fraction(3)
         if kwargs:
             raise RefError("keyword arguments to builtin")
         if name == "<builtin>len":
@@ -264,7 +293,20 @@ class RefMachine:
             self.env["<state>" + n] = to_exact_value(v)
         self.next_phase = method["initial"]
         self.calls = []
-        self.writes = []      # per step: list of (name, op index path) elementary persistent writes
+        self.trace = None     # when a list: per executed op {"op": index, "phase", "writes": {persistent: snapshot}, "sites": [...]}
+        self.op_index = {}
+        for p in method["phases"]:
+            counter = [0]
+
+            def walk(ops):
+                for op in ops:
+                    self.op_index[id(op)] = counter[0]
+                    counter[0] += 1
+                    if op[0] == "if":
+                        walk(op[2])
+                        if op[3]:
+                            walk(op[3])
+            walk(p["body"])
         self.ev = CheckedEvaluator(self.env, call=ref_call(self.calls), subscript=ref_subscript)
 
     # -- executing ops in program order
@@ -273,6 +315,31 @@ class RefMachine:
             self.exec_op(op, events)
 
     def exec_op(self, op, events):
+        if self.trace is None:
+            return self._exec_op(op, events)
+        ncalls = len(self.calls)
+        before = {n: snapshot_value(v) for n, v in self.env.items() if is_persistent(n)}
+        try:
+            return self._exec_op(op, events) if op[0] != "if" else self._exec_if_traced(op, events, ncalls, before)
+        finally:
+            if op[0] != "if":
+                self._record(op, ncalls, before)
+
+    def _record(self, op, ncalls, before):
+        after = {n: snapshot_value(v) for n, v in self.env.items() if is_persistent(n)}
+        self.trace.append({"op": self.op_index.get(id(op)), "phase": self.cur_phase, "kind": op[0],
+                           "writes": {n: v for n, v in after.items() if before.get(n, "<unset>") != v},
+                           "sites": [c[0] for c in self.calls[ncalls:]]})
+
+    def _exec_if_traced(self, op, events, ncalls, before):
+        flag = self.ev(op[1])
+        self._record(op, ncalls, before)       # the condition statement itself (may call functions)
+        if flag:
+            self.exec_block(op[2], events)
+        elif op[3]:
+            self.exec_block(op[3], events)
+
+    def _exec_op(self, op, events):
         k = op[0]
         ev = self.ev
         if k == "assign":
